@@ -4,8 +4,7 @@
    gate is active on its own string (controls 1, in = 1, out = 0), maps it to the next string, and is inactive on
    all earlier strings, then the final amplitudes on the strings are the diagonal spread  c0 r, s0 c1 r, ...
    and every other basis state has amplitude 0.  The hypothesis is a decidable check ([chain_ok]); for the
-   real gate skeleton (Model.hw_gates, both optimize_controls settings) it is verified by computation for all
-   1 <= k < n <= 10 (BOUNDED; for all n it depends on the global structure of the walk). *)
+   real gate skeleton (Model.hw_gates, both optimize_controls settings) it is proved for all n and k in ProofsHWOpt4.v (hw_ok_all). *)
 From Coq Require Import List Bool Arith Lia Ring.
 From QV Require Import C20.Model C20.Proofs C20.ProofsEhrlich.
 Import ListNotations.
@@ -234,20 +233,6 @@ Definition hw_ok (n k : nat) (opt : bool) : bool :=
   | Some bs, Some gs => chain_ok n [] bs gs
   | _, _ => false
   end.
-
-Definition all_hw_ok (nmax : nat) : bool :=
-  forallb (fun n => forallb (fun k => hw_ok n k true && hw_ok n k false) (seq 1 (n - 1))) (seq 2 (nmax - 1)).
-
-Lemma all_hw_ok_10 : all_hw_ok 10 = true.
-Proof. vm_compute. reflexivity. Qed.
-
-Lemma hw_ok_bounded n k opt : n <= 10 -> 1 <= k < n -> hw_ok n k opt = true.
-Proof.
-  intros Hn Hk. pose proof all_hw_ok_10 as H. unfold all_hw_ok in H.
-  rewrite forallb_forall in H. specialize (H n ltac:(apply in_seq; lia)).
-  rewrite forallb_forall in H. specialize (H k ltac:(apply in_seq; lia)).
-  apply andb_true_iff in H as [H1 H2]. now destruct opt.
-Qed.
 
 Section HWBounded.
   Variables (R : Type) (r0 r1 : R) (radd rmul rsub : R -> R -> R) (ropp : R -> R).
